@@ -405,6 +405,8 @@ def rules(rep, facts):
         r2c_iteration_tables(rep, facts)
         r2d_lookup_tables(rep, facts)
         r2e_typed_lookups(rep, facts)
+        from .rules_containers import r8_map_summaries
+        r8_map_summaries(rep, facts)
         r4_key_identity(rep, facts)
         r6_sorting(rep, facts)
         r7_bulk_insert(rep, facts)
